@@ -137,7 +137,7 @@ Proof.
   intros Ha Hk. destruct (globalize_spec r p Ha) as ((Hc & Hc0 & Hf & Ht & Hl) & Ep & Hag).
   exists (globalize r p). split; [repeat split; assumption|]. split; [exact Hag|]. split; [reflexivity|].
   rewrite <- Ep.
-  apply (typecheck_rn (globalize r p) Hc Hf Ht Hl (inT p) (inL p) False).
+  apply (typecheck_rn (globalize r p) Hc Hc0 Hf Ht Hl (inT p) (inL p) False).
   - apply (key_faithful_agree r); assumption.
   - apply okprog_atoms.
 Qed.
